@@ -1,11 +1,12 @@
 (* C14 — tenant vector quotas are exact.  Statements only; proofs live in Proofs/QuotaProofs.v; the
    model is Model/Quota.v (sequential handlers + interleaving model of the quota protocol).
    PARTIAL: sequential histories are proved for every history; concurrency is proved on the
-   interleaving model for the pairs the per-tenant mutex serialises (Insert / BulkInsert against each
-   other, every schedule) and REFUTED by witness schedules for every pair that involves Delete or
-   BatchDelete (they do not take the mutex).  BulkLoadHnsw against Insert-like calls is not proved
-   (it takes the mutex; the invariant for its thread was not written).  Runtime scheduling of the real
-   binary is sampled by the harness, not proved. *)
+   interleaving model for EVERY pair of calls out of {Insert, BulkInsert, BulkLoadHnsw, Delete,
+   BatchDelete} of one tenant and every schedule (all five take the per-tenant quota mutex since
+   /repo 3784711).  More than two concurrent calls and crashes are not covered; runtime scheduling of
+   the real binary is sampled by the harness, not proved.
+   The protocol BEFORE 3784711 (Delete / BatchDelete without the mutex) is kept as regression
+   documentation: Examples C14_old_protocol_* show the schedules on which it drifted. *)
 From Coq Require Import List NArith Bool.
 From Kyro Require Import Model.Quota Proofs.QuotaProofs.
 Import ListNotations.
@@ -40,61 +41,72 @@ Theorem C14_never_refused_below_limit :
    <-> (mem (qi_id it) (t_live ts) = false /\ len (t_live ts) = q_limit cfg t)).
 Proof. intros cfg es t it Ha ts. apply insert_refused_iff; [apply qfinal_good|exact Ha]. Qed.
 
-(* ---- interleaving model, pairs serialised by the quota mutex: Insert || Insert, Insert || BulkInsert,
-   BulkInsert || BulkInsert (same or different ids, accepted or engine-rejected vectors), EVERY schedule:
-   at every instant  |live| <= count <= |live| + 2  and  count <= limit;  when both calls have
-   returned the count is exact and the mutex is free. *)
+(* ---- interleaving model: ANY two calls out of Insert, BulkInsert, BulkLoadHnsw, Delete, BatchDelete of
+   one tenant (same or different ids, accepted or engine-rejected vectors, duplicates in batches),
+   EVERY schedule: at every instant  |live| <= count <= limit;  when both calls have returned the
+   count is exact and the mutex is free.  This covers overwrite || delete, bulk_insert || delete,
+   bulk_load(new or existing id) || delete, insert(new id) || delete and delete || batch_delete, the
+   pairs on which the protocol before /repo 3784711 drifted. *)
 Theorem C14_pairs :
   forall (limit count : N) (live : list N) (a b : thr) (sched : list bool),
   NoDup live -> count = len live -> count <= limit -> fresh a -> fresh b ->
   let c := crun limit sched (cstart count live a b) in
-  (final_live c <= final_count c /\ final_count c <= final_live c + 2 /\ final_count c <= limit
-   /\ NoDup (sh_live (c_sh c)))
+  (final_live c <= final_count c /\ final_count c <= limit /\ NoDup (sh_live (c_sh c)))
   /\ (quiescent c = true -> final_count c = final_live c /\ sh_mutex (c_sh c) = None).
-Proof. exact pairs_insert_like. Qed.
+Proof. exact pairs_all. Qed.
+(* what `fresh` ranges over: every kind of write call of the CURRENT protocol, just arrived *)
+Theorem C14_pairs_cover_all_calls :
+  forall id ok rest items ids,
+  fresh (TI (istart id ok)) /\ fresh (TBI (istart id ok) rest) /\ fresh (TL (lstart items))
+  /\ fresh (TD (dstart id)) /\ fresh (TB (bstart ids)).
+Proof.
+  intros. unfold fresh. repeat split.
+  - left. eauto.
+  - right. left. eauto.
+  - right. right. left. eauto.
+  - right. right. right. left. eauto.
+  - right. right. right. right. eauto.
+Qed.
 
-(* ---- pairs with Delete / BatchDelete (no mutex): a schedule from an exact state that ends, both
-   calls returned, with the count ONE SHORT of the live documents — and below the limit although the
-   tenant holds `limit` documents, so the next new id is admitted (C14_never_refused_below_limit's
-   refusal condition reads the count): the tenant exceeds its limit. *)
+(* ---- REGRESSION DOCUMENTATION (not claims about the current code): the OLD protocol, in which
+   Delete / BatchDelete ran without the quota mutex (dstart_old / bstart_old), drifts: a schedule from an
+   exact state that ends, both calls returned, with the count ONE SHORT of the live documents, so the
+   next new id is admitted past the limit.  Reproduced on the real binary before the repair
+   (52 of 674 race repetitions); see known_findings.json `fixed:` 3784711. *)
 Definition drifts (a b : thr) : Prop :=
   exists (limit count : N) (live : list N) (sched : list bool),
     count = len live /\ count <= limit /\
     let c := crun limit sched (cstart count live a b) in
     quiescent c = true /\ final_count c + 1 = final_live c.
 
-Theorem C14_overwrite_delete_refuted : drifts (TI (istart 1 true)) (TD (dstart 1)).
+Example C14_old_protocol_overwrite_delete_drift : drifts (TI (istart 1 true)) (TD (dstart_old 1)).
 Proof.
-  exists 2, 2, [1; 2], w_overwrite_delete. destruct overwrite_delete_witness as [A [B [C D]]].
+  exists 2, 2, [1; 2], w_overwrite_delete. destruct old_overwrite_delete_witness as [A [B [C D]]].
   split; [exact A|]. split; [discriminate|]. cbv zeta in *. split; [exact B|]. rewrite C, D. reflexivity.
 Qed.
-Theorem C14_bulk_insert_delete_refuted : drifts (TBI (istart 1 true) []) (TD (dstart 1)).
+Example C14_old_protocol_bulk_insert_delete_drift : drifts (TBI (istart 1 true) []) (TD (dstart_old 1)).
 Proof.
-  exists 2, 2, [1; 2], w_overwrite_delete. destruct bulk_insert_delete_witness as [A [B [C D]]].
+  exists 2, 2, [1; 2], w_overwrite_delete. destruct old_bulk_insert_delete_witness as [A [B [C D]]].
   split; [exact A|]. split; [discriminate|]. cbv zeta in *. split; [exact B|]. rewrite C, D. reflexivity.
 Qed.
-Theorem C14_bulk_load_overwrite_delete_refuted : drifts (TL (lstart [(1, true)])) (TD (dstart 1)).
+Example C14_old_protocol_bulk_load_overwrite_delete_drift : drifts (TL (lstart [(1, true)])) (TD (dstart_old 1)).
 Proof.
-  exists 2, 2, [1; 2], w_load_over_delete. destruct bulk_load_overwrite_delete_witness as [A [B [C D]]].
+  exists 2, 2, [1; 2], w_load_over_delete. destruct old_bulk_load_overwrite_delete_witness as [A [B [C D]]].
   split; [exact A|]. split; [discriminate|]. cbv zeta in *. split; [exact B|]. rewrite C, D. reflexivity.
 Qed.
-(* new id: the delete lands after the load and before the load's recount *)
-Theorem C14_bulk_load_new_delete_refuted : drifts (TL (lstart [(1, true)])) (TD (dstart 1)).
+Example C14_old_protocol_bulk_load_new_delete_drift : drifts (TL (lstart [(1, true)])) (TD (dstart_old 1)).
 Proof.
-  exists 2, 1, [2], w_load_new_delete. destruct bulk_load_new_delete_witness as [A [B [C D]]].
+  exists 2, 1, [2], w_load_new_delete. destruct old_bulk_load_new_delete_witness as [A [B [C D]]].
   split; [exact A|]. split; [discriminate|]. cbv zeta in *. split; [exact B|]. rewrite C, D. reflexivity.
 Qed.
-(* new id: the delete lands between TieredEngine::insert's cold-tier insert and its coherence-token
-   read (model granularity only: the window is a few instructions wide in the code) *)
-Theorem C14_insert_new_delete_refuted : drifts (TI (istart 1 true)) (TD (dstart 1)).
+Example C14_old_protocol_insert_new_delete_drift : drifts (TI (istart 1 true)) (TD (dstart_old 1)).
 Proof.
-  exists 2, 1, [2], w_insert_new_delete. destruct insert_new_delete_witness as [A [B [C D]]].
+  exists 2, 1, [2], w_insert_new_delete. destruct old_insert_new_delete_witness as [A [B [C D]]].
   split; [exact A|]. split; [discriminate|]. cbv zeta in *. split; [exact B|]. rewrite C, D. reflexivity.
 Qed.
-(* Delete || BatchDelete of the same id: both report the deletion *)
-Theorem C14_delete_batch_delete_refuted : drifts (TB (bstart [1])) (TD (dstart 1)).
+Example C14_old_protocol_delete_batch_delete_drift : drifts (TB (bstart_old [1])) (TD (dstart_old 1)).
 Proof.
-  exists 2, 2, [1; 2], w_delete_batch. destruct delete_batch_delete_witness as [A [B [C D]]].
+  exists 2, 2, [1; 2], w_delete_batch. destruct old_delete_batch_delete_witness as [A [B [C D]]].
   split; [exact A|]. split; [discriminate|]. cbv zeta in *. split; [exact B|]. rewrite C, D. reflexivity.
 Qed.
 
@@ -123,10 +135,17 @@ Example C14_nonvacuous_pairs :
   quiescent c = true /\ final_count c = 2 /\ final_live c = 2
   /\ match c_b c with TI x => i_refused x | _ => false end = true.
 Proof. exact pairs_nonvacuous. Qed.
+(* overwrite || delete on the schedule prefix that made the old protocol drift: the delete now blocks
+   on the mutex until the overwrite has unlocked; both return, the count is exact *)
+Example C14_nonvacuous_overwrite_delete :
+  let c := crun 2 ([false; false; true; true; true] ++ repeat false 6 ++ repeat true 6)
+                (cstart 2 [1; 2] (TI (istart 1 true)) (TD (dstart 1))) in
+  quiescent c = true /\ final_count c = 1 /\ final_live c = 1.
+Proof. exact pairs_nonvacuous_delete. Qed.
 
 Print Assumptions C14_count_exact_seq.
 Print Assumptions C14_never_above_limit.
 Print Assumptions C14_never_refused_below_limit.
 Print Assumptions C14_pairs.
-Print Assumptions C14_overwrite_delete_refuted.
-Print Assumptions C14_delete_batch_delete_refuted.
+Print Assumptions C14_pairs_cover_all_calls.
+Print Assumptions C14_old_protocol_overwrite_delete_drift.
